@@ -154,6 +154,42 @@ func C11(c *Ctx) {
 		}
 		return anchor(sites[0], depth+1)
 	}
+	// mustAnchors: the instructions of the frame at which `in` is certainly executed: `in` itself when it is in the
+	// frame; when it is in a helper (not a function literal), the helper executes it on every way from its entry
+	// to a return, and the same holds for every call of the helper, up to the frame.  Nil if that cannot be shown.
+	var mustAnchors func(in ssa.Instruction) []ssa.Instruction
+	{
+		var rec func(in ssa.Instruction, depth int) ([]ssa.Instruction, bool)
+		rec = func(in ssa.Instruction, depth int) ([]ssa.Instruction, bool) {
+			f := in.Parent()
+			if f == frame {
+				return []ssa.Instruction{in}, true
+			}
+			if _, isCall := in.(*ssa.Call); (!isCall && depth > 0) || depth > 4 || f.Parent() != nil {
+				return nil, false
+			}
+			if !flow.NewPostDom(f).PostDominates(in.Block(), f.Blocks[0]) {
+				return nil, false
+			}
+			sites := callSitesOf(f, pkgFns)
+			if len(sites) == 0 {
+				return nil, false
+			}
+			var out []ssa.Instruction
+			for _, s := range sites {
+				as, ok := rec(s, depth+1)
+				if !ok {
+					return nil, false
+				}
+				out = append(out, as...)
+			}
+			return out, true
+		}
+		mustAnchors = func(in ssa.Instruction) []ssa.Instruction {
+			as, _ := rec(in, 0)
+			return as
+		}
+	}
 	// derived context: a With* call (in Exec or a helper) on a value that is Exec's ctx
 	var derive *ssa.Call
 	for _, g := range pkgFns {
@@ -316,12 +352,7 @@ func C11(c *Ctx) {
 	var watchIntr ssa.Instruction
 	var watcherWhy = "no goroutine waits on the derived context and interrupts the runtime"
 	for _, g := range gos {
-		var wfn *ssa.Function
-		if mc, ok := g.Call.Value.(*ssa.MakeClosure); ok {
-			wfn = mc.Fn.(*ssa.Function)
-		} else if sc := g.Call.StaticCallee(); sc != nil {
-			wfn = sc
-		}
+		wfn := c11GoTarget(g, pkgFns)
 		if wfn == nil || !closure[wfn] {
 			continue
 		}
@@ -367,18 +398,31 @@ func C11(c *Ctx) {
 	} else {
 		cancelBlocks := map[*ssa.BasicBlock]bool{}
 		deferred := false
-		ssau.Instrs(frame, func(in ssa.Instruction) {
-			switch u := in.(type) {
-			case *ssa.Call:
-				if u.Common().StaticCallee() == nil && !u.Common().IsInvoke() && traces(u.Common().Value, cancel) {
-					cancelBlocks[u.Block()] = true
+		for _, g := range pkgFns {
+			ssau.Instrs(g, func(in ssa.Instruction) {
+				switch u := in.(type) {
+				case *ssa.Call:
+					if u.Common().StaticCallee() == nil && !u.Common().IsInvoke() && traces(u.Common().Value, cancel) {
+						// in the frame itself, or in a helper that cancels on every way through it: then the
+						// frame cancels where it calls (or defers) that helper
+						for _, a := range mustAnchors(in) {
+							switch a.(type) {
+							case *ssa.Call:
+								cancelBlocks[a.Block()] = true
+							case *ssa.Defer:
+								if a.Block().Dominates(runCall.Block()) {
+									deferred = true
+								}
+							}
+						}
+					}
+				case *ssa.Defer:
+					if g == frame && traces(u.Call.Value, cancel) && u.Block().Dominates(runCall.Block()) {
+						deferred = true
+					}
 				}
-			case *ssa.Defer:
-				if traces(u.Call.Value, cancel) && u.Block().Dominates(runCall.Block()) {
-					deferred = true
-				}
-			}
-		})
+			})
+		}
 		start := deriveAnchor.Block()
 		ok := deferred
 		if !deferred {
@@ -533,8 +577,9 @@ func C11(c *Ctx) {
 				ls := norm(x)
 				for _, sg := range sigs {
 					if sg.wg == wg && same(ls, sg.leaves) {
-						if a := anchor(in, 0); a != nil {
-							if _, isMk := a.(*ssa.MakeClosure); !isMk {
+						// in the frame, or in a helper that waits on every way through it
+						for _, a := range mustAnchors(in) {
+							if _, isCall := a.(*ssa.Call); isCall || a == in {
 								waitBlocks[a.Block()] = true
 							}
 						}
@@ -601,6 +646,34 @@ func C11(c *Ctx) {
 			}
 			return false
 		}
+		inPkgFns := map[*ssa.Function]bool{}
+		for _, g := range pkgFns {
+			inPkgFns[g] = true
+		}
+		// errWheneverEnded: every return of helper h whose last result (an error) can be nil lies under a test, made
+		// in h, that Exec's context has not ended.
+		errWheneverEnded := func(h *ssa.Function) bool {
+			res := h.Signature.Results()
+			if h.Blocks == nil || res.Len() == 0 || !types.Identical(res.At(res.Len()-1).Type(), types.Universe.Lookup("error").Type()) {
+				return false
+			}
+			n := 0
+			for _, b := range h.Blocks {
+				ret, ok := b.Instrs[len(b.Instrs)-1].(*ssa.Return)
+				if !ok || len(ret.Results) == 0 || b == h.Recover {
+					continue
+				}
+				n++
+				last := ret.Results[len(ret.Results)-1]
+				if !ssau.IsNilConst(last) && provablyNonNilErr(last) {
+					continue
+				}
+				if !ctxAlive(flow.FactsAt(b), h, nil) {
+					return false
+				}
+			}
+			return n > 0
+		}
 		// does the frame (when it is a helper) report an ended context as an error?
 		frameGuards := false
 		var frameErr ssa.Value
@@ -632,12 +705,22 @@ func C11(c *Ctx) {
 			n9++
 			fs := flow.FactsAt(b)
 			tested := ctxAlive(fs, exec, runSite)
-			if !tested && frameGuards && frameErr != nil {
+			if !tested {
 				for _, ft := range fs {
 					if bo, isB := ft.Cond.(*ssa.BinOp); isB && (bo.Op == token.EQL || bo.Op == token.NEQ) && ssau.IsNilConst(bo.Y) {
 						for _, d := range phiDefs(bo.X, nil, map[ssa.Value]bool{}) {
-							if d == frameErr && (bo.Op == token.EQL) == ft.True {
+							if (bo.Op == token.EQL) != ft.True {
+								continue
+							}
+							if frameGuards && frameErr != nil && d == frameErr {
 								tested = true
+							}
+							// the verdict of a helper that is called after the program ran and answers with an
+							// error whenever the context has ended
+							if cl := c11ErrCall(d); cl != nil && cl.Parent() == exec && runSite != nil && cl != runSite && (flow.InstrDominates(runSite, cl) || (runSite.Block() != cl.Block() && flow.Reachable(runSite.Block(), cl.Block(), nil))) {
+								if h := cl.Common().StaticCallee(); h != nil && h != frame && inPkgFns[h] && errWheneverEnded(h) {
+									tested = true
+								}
 							}
 						}
 					}
@@ -673,11 +756,36 @@ func C11(c *Ctx) {
 			}
 		}
 	}
+	// the mapping may sit in a helper whose verdict Exec returns: follow the error Exec returns to where it is chosen
+	for _, b := range exec.Blocks {
+		ret, ok := b.Instrs[len(b.Instrs)-1].(*ssa.Return)
+		if !ok || len(ret.Results) != 2 || okMap {
+			continue
+		}
+		here := flow.FactsAt(b)
+		for _, src := range sourcesWithFactsAt(ret.Results[1], pkgFns, here) {
+			u, isU := src.leaf.(*ssa.UnOp)
+			if !isU || u.Op != token.MUL {
+				continue
+			}
+			if g, isG := u.X.(*ssa.Global); !isG || g.Name() != "Interrupted" {
+				continue
+			}
+			for _, f := range flow.Expand(append(append([]flow.Fact{}, here...), src.facts...)) {
+				if ex, isEx := f.Cond.(*ssa.Extract); isEx && f.True {
+					if ta, isTA := ex.Tuple.(*ssa.TypeAssert); isTA && ex.Index == 1 && ssau.TypeIs(ta.AssertedType, gojaRuntime, "InterruptedError") {
+						okMap = true
+					}
+				}
+			}
+		}
+	}
 	c.R.Check(okMap, "C11-R4", "Exec: interrupted run returns Interrupted", c.P.Pos(exec.Pos()), "under a type test for goja's InterruptedError", "an interrupted run is no longer reported as the Interrupted (timeout) error")
 
 	// ---- R5 context threading
 	n5 := 0
-	for _, f := range c.P.FuncsIn("core") {
+	coreFns := c.P.FuncsIn("core")
+	for _, f := range coreFns {
 		ssau.Instrs(f, func(in ssa.Instruction) {
 			ci, ok := in.(ssa.CallInstruction)
 			if !ok {
@@ -717,6 +825,11 @@ func C11(c *Ctx) {
 			}
 			n5++
 			p, isParam := ctxArg.(*ssa.Parameter)
+			if !(isParam && p.Parent() == f) && c11CallCtx(ctxArg, f, coreFns, 0, map[ssa.Value]bool{}) {
+				// the ctx parameter of the call this helper belongs to, carried in a struct built for that call
+				c.R.Discharge("C11-R5", fmt.Sprintf("%s: context passed to %s #%d", fname(f), name, n5), c.pos(in), "the ctx parameter of the enclosing call, carried in a per-call struct")
+				return
+			}
 			c.R.Check(isParam && p.Parent() == f, "C11-R5", fmt.Sprintf("%s: context passed to %s #%d", fname(f), name, n5), c.pos(in), "the enclosing function's own ctx parameter", "the context handed on is not the ctx parameter of the enclosing call ("+ctxArg.String()+"): a per-call deadline or cancellation would not reach the script")
 		})
 	}
@@ -743,4 +856,295 @@ func provablyNonNilErr(v ssa.Value) bool {
 		return false
 	}
 	return true
+}
+
+// c11BoundMethod: the method behind a bound-method wrapper (`x.m` used as a function value); f itself otherwise.
+func c11BoundMethod(f *ssa.Function) *ssa.Function {
+	if f == nil || f.Synthetic == "" || !strings.HasSuffix(f.Name(), "$bound") {
+		return f
+	}
+	var m *ssa.Function
+	ssau.Instrs(f, func(in ssa.Instruction) {
+		if ci, ok := in.(ssa.CallInstruction); ok {
+			if sc := ci.Common().StaticCallee(); sc != nil && sc.Name()+"$bound" == f.Name() {
+				m = sc
+			}
+		}
+	})
+	if m == nil {
+		return f
+	}
+	return m
+}
+
+// c11GoTarget: the one function a go statement starts: a static callee, a function literal, or the method behind a
+// method value (`go w.watch()` spelled `f := w.watch; go f()`); the function value may sit in a local variable.
+func c11GoTarget(g *ssa.Go, scope []*ssa.Function) *ssa.Function {
+	if g.Call.IsInvoke() {
+		return nil
+	}
+	if sc := g.Call.StaticCallee(); sc != nil {
+		return c11BoundMethod(sc)
+	}
+	var fn *ssa.Function
+	for _, d := range deepDefs(g.Call.Value, scope) {
+		var f *ssa.Function
+		switch x := d.(type) {
+		case *ssa.MakeClosure:
+			f, _ = x.Fn.(*ssa.Function)
+		case *ssa.Function:
+			f = x
+		}
+		f = c11BoundMethod(f)
+		if f == nil || (fn != nil && fn != f) {
+			return nil
+		}
+		fn = f
+	}
+	return fn
+}
+
+// c11ErrCall: the call whose last (or only) result v is.
+func c11ErrCall(v ssa.Value) *ssa.Call {
+	switch x := v.(type) {
+	case *ssa.Call:
+		if _, isTup := x.Type().(*types.Tuple); !isTup {
+			return x
+		}
+	case *ssa.Extract:
+		if cl, ok := x.Tuple.(*ssa.Call); ok {
+			if tup, isTup := cl.Type().(*types.Tuple); isTup && x.Index == tup.Len()-1 {
+				return cl
+			}
+		}
+	}
+	return nil
+}
+
+// c11CallCtx: is v, used in function f, the context parameter of the call that f is part of?  That is f's own
+// context parameter, or a field of a struct that was built for this call: f is an unexported helper that is only
+// ever called directly (never used as a function value, started or deferred), the struct it reads the field of is
+// handed in by every caller as a struct that the caller allocated itself (or got from its own caller the same
+// way, or from a constructor that allocated it), and everything ever stored into that field of such a struct is,
+// at the place of the store, that function's own context parameter in the same sense.  A captured variable, a
+// field of a longer-lived object, a global or a fresh context is none of these.
+func c11CallCtx(v ssa.Value, f *ssa.Function, fns []*ssa.Function, depth int, seen map[ssa.Value]bool) bool {
+	if depth > 6 || f == nil {
+		return false
+	}
+	switch x := v.(type) {
+	case *ssa.Parameter:
+		return x.Parent() == f && isContext(x.Type())
+	case *ssa.Phi:
+		if seen[x] {
+			return true
+		}
+		seen[x] = true
+		for _, e := range x.Edges {
+			if !c11CallCtx(e, f, fns, depth, seen) {
+				return false
+			}
+		}
+		return len(x.Edges) > 0
+	case *ssa.UnOp:
+		fa, isFA := x.X.(*ssa.FieldAddr)
+		if x.Op != token.MUL || !isFA {
+			return false
+		}
+		objs, ok := c11CallStructs(fa.X, f, fns, depth, map[ssa.Value]bool{})
+		if !ok || len(objs) == 0 {
+			return false
+		}
+		pt, isPtr := fa.X.Type().Underlying().(*types.Pointer)
+		if !isPtr {
+			return false
+		}
+		mine := map[*ssa.Alloc]bool{}
+		for _, o := range objs {
+			mine[o] = true
+			// the struct is written field by field only
+			for _, r := range ssau.Referrers(o) {
+				if st, isSt := r.(*ssa.Store); isSt && st.Addr == ssa.Value(o) {
+					return false
+				}
+			}
+		}
+		stores := map[*ssa.Alloc]int{}
+		good := true
+		for _, g := range fns {
+			ssau.Instrs(g, func(in ssa.Instruction) {
+				fb, isFB := in.(*ssa.FieldAddr)
+				if !isFB || !good || fb.Field != fa.Field {
+					return
+				}
+				pb, isPtr := fb.X.Type().Underlying().(*types.Pointer)
+				if !isPtr || !types.Identical(pb.Elem(), pt.Elem()) {
+					return
+				}
+				al, isAl := fb.X.(*ssa.Alloc)
+				if isAl && !mine[al] {
+					return // the same field of another struct that is a local of its function
+				}
+				for _, r := range ssau.Referrers(fb) {
+					switch y := r.(type) {
+					case *ssa.UnOp:
+						if y.Op != token.MUL {
+							good = false
+						}
+					case *ssa.Store:
+						// a store through a pointer that is not the local itself could hit the struct in question
+						if y.Addr != ssa.Value(fb) || !isAl || !c11CallCtx(y.Val, al.Parent(), fns, depth+1, map[ssa.Value]bool{}) {
+							good = false
+						} else {
+							stores[al]++
+						}
+					case *ssa.DebugRef:
+					default:
+						good = false
+					}
+				}
+			})
+		}
+		for _, o := range objs {
+			if stores[o] == 0 {
+				good = false
+			}
+		}
+		return good
+	}
+	return false
+}
+
+// c11CallStructs: the structs, each a local allocation of a function on the current call chain, that the pointer
+// p (used in f) can be; ok=false if p can be anything else.
+func c11CallStructs(p ssa.Value, f *ssa.Function, fns []*ssa.Function, depth int, seen map[ssa.Value]bool) ([]*ssa.Alloc, bool) {
+	if depth > 6 || f == nil {
+		return nil, false
+	}
+	switch x := p.(type) {
+	case *ssa.Alloc:
+		return []*ssa.Alloc{x}, x.Parent() == f
+	case *ssa.Phi:
+		if seen[x] {
+			return nil, true
+		}
+		seen[x] = true
+		var out []*ssa.Alloc
+		for _, e := range x.Edges {
+			as, ok := c11CallStructs(e, f, fns, depth, seen)
+			if !ok {
+				return nil, false
+			}
+			out = append(out, as...)
+		}
+		return out, true
+	case *ssa.Call:
+		// a constructor of this package
+		h := x.Common().StaticCallee()
+		if h == nil || h.Blocks == nil || prog.PkgOf(h) != prog.PkgOf(f) || h.Signature.Results().Len() != 1 {
+			return nil, false
+		}
+		var out []*ssa.Alloc
+		for _, b := range h.Blocks {
+			if ret, isRet := b.Instrs[len(b.Instrs)-1].(*ssa.Return); isRet && len(ret.Results) == 1 {
+				as, ok := c11CallStructs(ret.Results[0], h, fns, depth+1, map[ssa.Value]bool{})
+				if !ok {
+					return nil, false
+				}
+				out = append(out, as...)
+			}
+		}
+		return out, len(out) > 0
+	case *ssa.Parameter:
+		if x.Parent() != f || f.Parent() != nil || f.Synthetic != "" || token.IsExported(f.Name()) {
+			return nil, false
+		}
+		idx := -1
+		for i, q := range f.Params {
+			if q == x {
+				idx = i
+			}
+		}
+		if idx < 0 {
+			return nil, false
+		}
+		// f is only ever called directly, or through a method value that is only ever called directly where it is made
+		type site struct {
+			fn  *ssa.Function
+			arg ssa.Value
+		}
+		var sites []site
+		direct := true
+		for _, g := range fns {
+			ssau.Instrs(g, func(in ssa.Instruction) {
+				if mc, isMC := in.(*ssa.MakeClosure); isMC {
+					if w, isF := mc.Fn.(*ssa.Function); isF && w != f && c11BoundMethod(w) == f {
+						if len(mc.Bindings) != 1 {
+							direct = false
+							return
+						}
+						for _, r := range ssau.Referrers(mc) {
+							switch y := r.(type) {
+							case *ssa.Call:
+								if y.Call.Value != ssa.Value(mc) || idx-1 >= len(y.Call.Args) {
+									direct = false
+									continue
+								}
+								for _, a := range y.Call.Args {
+									if a == ssa.Value(mc) {
+										direct = false
+									}
+								}
+								if idx == 0 {
+									sites = append(sites, site{g, mc.Bindings[0]})
+								} else {
+									sites = append(sites, site{g, y.Call.Args[idx-1]})
+								}
+							case *ssa.DebugRef:
+							default:
+								direct = false
+							}
+						}
+					}
+				}
+				var ops [12]*ssa.Value
+				for _, op := range in.Operands(ops[:0]) {
+					if *op != ssa.Value(f) {
+						continue
+					}
+					cl, isCall := in.(*ssa.Call)
+					if !isCall || cl.Call.Value != ssa.Value(f) {
+						direct = false
+						continue
+					}
+					for _, a := range cl.Call.Args {
+						if a == ssa.Value(f) {
+							direct = false
+						}
+					}
+					if g.Synthetic != "" && c11BoundMethod(g) == f {
+						continue // the call inside the bound-method wrapper: judged where the method value is made
+					}
+					if idx >= len(cl.Call.Args) {
+						direct = false
+						continue
+					}
+					sites = append(sites, site{g, cl.Call.Args[idx]})
+				}
+			})
+		}
+		if !direct || len(sites) == 0 {
+			return nil, false
+		}
+		var out []*ssa.Alloc
+		for _, s := range sites {
+			as, ok := c11CallStructs(s.arg, s.fn, fns, depth+1, map[ssa.Value]bool{})
+			if !ok {
+				return nil, false
+			}
+			out = append(out, as...)
+		}
+		return out, len(out) > 0
+	}
+	return nil, false
 }
